@@ -8,6 +8,7 @@ import (
 	"errors"
 	"fmt"
 	"os"
+	"os/exec"
 	"strings"
 
 	"github.com/blinklabs-io/gouroboros/ledger/common"
@@ -291,7 +292,128 @@ func sameRefs(a []inRef, b []common.TransactionInput) bool {
 	return true
 }
 
+// implVerdict runs the real rules on one case and returns "accept", the error
+// class, "EPanic" or "decode-rejected"; no monitor, no Coq case.
+func implVerdict(tc txCase) string {
+	e := eraByName(tc.Era)
+	if e == nil {
+		return "unknown-era"
+	}
+	var tx common.Transaction
+	var derr error
+	if p, _ := vh.Recover(func() { tx, derr = e.Decode(vh.UnHex(tc.Tx)) }); p || derr != nil || tx == nil {
+		return "decode-rejected"
+	}
+	ents := map[string]utxoEnt{}
+	for _, u := range tc.Utxo {
+		ents[utxoKey(vh.UnHex(u.TxId), u.Idx)] = u
+	}
+	rules, _ := e.witnessRules()
+	var verr error
+	if p, _ := vh.Recover(func() { verr = common.VerifyTransaction(tx, 100, &mockLS{ents: ents}, nil, rules) }); p {
+		return "EPanic"
+	}
+	if verr == nil {
+		return "accept"
+	}
+	_, cl := classify(verr)
+	return cl
+}
+
+// freshVerdicts evaluates every case ALONE (without its history) in a fresh
+// process of this same binary, i.e. with no validation history at all.
+func freshVerdicts(tcs []txCase) ([]string, error) {
+	bare := make([]txCase, len(tcs))
+	for i, t := range tcs {
+		t.History = nil
+		bare[i] = t
+	}
+	in, _ := json.Marshal(bare)
+	exe, err := os.Executable()
+	if err != nil {
+		return nil, err
+	}
+	cmd := exec.Command(exe, "verdicts")
+	cmd.Stdin = bytes.NewReader(in)
+	out, err := cmd.Output()
+	if err != nil {
+		return nil, err
+	}
+	var vs []string
+	if err := json.Unmarshal(out, &vs); err != nil || len(vs) != len(tcs) {
+		return nil, fmt.Errorf("verdicts subprocess: bad output (%v)", err)
+	}
+	return vs, nil
+}
+
+// verdictsMain: `c28 verdicts` - JSON list of cases on stdin, verdicts on
+// stdout.  Each case has its own fresh keys, so the cases of one batch do not
+// share any witness material.
+func verdictsMain() {
+	var tcs []txCase
+	must(json.NewDecoder(os.Stdin).Decode(&tcs))
+	vs := make([]string, len(tcs))
+	for i, t := range tcs {
+		vs[i] = implVerdict(t)
+	}
+	must(json.NewEncoder(os.Stdout).Encode(vs))
+}
+
+type histObs struct {
+	tc      txCase
+	verdict string
+}
+
+var histCases []histObs
+
+// checkHistories compares, for every case that was validated after a history,
+// the verdict obtained then with the verdict of the same transaction alone in
+// a fresh process.
+func checkHistories(c *vh.Ctx) {
+	if len(histCases) == 0 {
+		return
+	}
+	tcs := make([]txCase, len(histCases))
+	for i, h := range histCases {
+		tcs[i] = h.tc
+	}
+	fresh, err := freshVerdicts(tcs)
+	if err != nil {
+		c.Res.Violate("correspondence", "fresh-process-verdicts-failed", err.Error(), nil)
+		return
+	}
+	for i, h := range histCases {
+		if fresh[i] == h.verdict {
+			continue
+		}
+		dir := "verdict"
+		if h.verdict == "accept" {
+			dir = "accept"
+		} else if fresh[i] == "accept" {
+			dir = "reject"
+		}
+		c.Res.Violate("monitor", h.tc.Era+"-bootstrap-"+dir+"-depends-on-history",
+			fmt.Sprintf("%s: after validating %d earlier transaction(s) in the same process the rules answer %s; the same transaction alone in a fresh process gets %s [%s]",
+				h.tc.Era, len(h.tc.History), h.verdict, fresh[i], h.tc.Label), h.tc)
+	}
+	c.Res.Notes = append(c.Res.Notes, fmt.Sprintf("%d cases validated after a history, each compared with a fresh-process verdict", len(histCases)))
+}
+
 func runCase(c *vh.Ctx, cf *vh.CaseFile, tc txCase) {
+	if len(tc.History) > 0 {
+		// validate the history first, in this process; its own verdicts are
+		// checked where those transactions are run as cases of their own
+		for _, h := range tc.History {
+			implVerdict(h)
+		}
+		v := runCase1(c, cf, tc)
+		histCases = append(histCases, histObs{tc, v})
+		return
+	}
+	runCase1(c, cf, tc)
+}
+
+func runCase1(c *vh.Ctx, cf *vh.CaseFile, tc txCase) (verdict string) {
 	e := eraByName(tc.Era)
 	if e == nil {
 		panic("harness: unknown era " + tc.Era)
@@ -309,7 +431,7 @@ func runCase(c *vh.Ctx, cf *vh.CaseFile, tc txCase) {
 	var derr error
 	if p, pv := vh.Recover(func() { tx, derr = e.Decode(raw) }); p {
 		c.Res.Violate("monitor", e.Name+"-decode-panic", fmt.Sprintf("decoder panicked: %v", pv), tc)
-		return
+		return "decode-panic"
 	}
 	if derr != nil {
 		// e.g. Conway+ reject duplicate members of tagged sets; not this property's business
@@ -318,7 +440,7 @@ func runCase(c *vh.Ctx, cf *vh.CaseFile, tc txCase) {
 		if strings.HasPrefix(tc.Label, "corpus") && !strings.Contains(tc.Label, "dup") {
 			c.Res.Violate("correspondence", "harness-tx-not-decodable", fmt.Sprintf("%s: %s: %v", e.Name, tc.Label, derr), tc)
 		}
-		return
+		return "decode-rejected"
 	}
 	decoded[e.Name]++
 	rules, _ := e.witnessRules()
@@ -470,7 +592,7 @@ func runCase(c *vh.Ctx, cf *vh.CaseFile, tc txCase) {
 	}
 	if class == "EUnknown" {
 		c.Res.Violate("correspondence", "unclassified-error", fmt.Sprintf("%s: the witness rules returned an error this harness cannot classify: %v", e.Name, verr), tc)
-		return
+		return cls
 	}
 
 	// ---- the Coq case: abstract tx + oracle tables + observed answer
@@ -535,10 +657,11 @@ func runCase(c *vh.Ctx, cf *vh.CaseFile, tc txCase) {
 		vh.Str(e.Name), ib(a.txid), rl(ins), rl(coll), bl(a.req), bl(wdrlKeys), vh.List(vks), vh.List(bws),
 		vh.List(h224tbl), vh.List(sha3tbl), vh.List(vertbl), obs)
 	cf.Add(cur.lets.String()+term, tc)
+	return cls
 }
 
 func run(c *vh.Ctx) error {
-	c.Res.Rule = "per era (shelley..conway, dijkstra): transactions built as CBOR (vh.Item), decoded by the era's real decoder, with 1-4 inputs that the mock ledger resolves to key / script / Byron / reward-style addresses or not at all, collateral and required signers (Alonzo+), key-hash and script withdrawals, and witness sets derived from the complete valid set by 0-3 perturbations (drop, unrelated extra, wrong key, corrupted signature, signature over another tx id / the re-encoded body / the whole tx, duplicate, truncated key or signature, Byron: wrong chain code / attributes / key given as vkey witness); real Ed25519 keys. Distinct by the full transaction bytes; non-trivial = at least one input and at least one witness."
+	c.Res.Rule = "per era (shelley..conway, dijkstra): transactions built as CBOR (vh.Item), decoded by the era's real decoder, with 1-4 inputs that the mock ledger resolves to key / script / Byron / reward-style addresses or not at all, collateral and required signers (Alonzo+), key-hash and script withdrawals, and witness sets derived from the complete valid set by 0-3 perturbations (drop, unrelated extra, wrong key, corrupted signature, signature over another tx id / the re-encoded body / the whole tx, duplicate, truncated key or signature, Byron: wrong chain code / attributes / key given as vkey witness); real Ed25519 keys. Validation histories: a legitimate Byron spend followed (or preceded) in the same process by a spend whose bootstrap witness differs from the legitimate one only in the last attribute byte(s) / an appended zero byte / the last chain-code byte / the last key byte, attribute lengths 1,31,32,33,34,64,100; each verdict must equal the stateless model and the verdict of the same transaction alone in a fresh process. Distinct by the full transaction bytes; non-trivial = at least one input and at least one witness."
 	c.Res.Modelled = []string{
 		"Ed25519 verification, Blake2b-224 and SHA3-256 are Section variables in the theorems; in the correspondence the model is instantiated with oracle tables computed by the harness (crypto/ed25519, x/crypto blake2b and sha3), not by the repository",
 		"address decoding (payment credential kind, Byron root) and transaction decoding are not modelled: the model receives the classification computed independently by the harness from the wire bytes (CIP-19 header nibble, Byron payload), and the harness checks that the real decoder surfaces the same inputs/collateral/signers/witnesses",
@@ -559,19 +682,29 @@ func run(c *vh.Ctx) error {
 		}
 		runCase(c, cf, rp.Replay)
 		cf.Flush()
+		checkHistories(c)
 		return nil
 	}
 	for _, tc := range corpus(c.Rng.Fork()) {
 		runCase(c, cf, tc)
 	}
-	n := c.Pick(36, 800)
+	n := c.Pick(30, 800)
 	for _, e := range eras {
 		r := c.Rng.Fork()
 		for i := 0; i < n; i++ {
 			runCase(c, cf, genCase(r, e, ""))
 		}
 	}
+	// validation histories: a legitimate Byron spend and a near-collision of its
+	// bootstrap witness, in both orders
+	for _, e := range eras {
+		r := c.Rng.Fork()
+		for _, tc := range byronHistories(r, e, c.Thorough()) {
+			runCase(c, cf, tc)
+		}
+	}
 	cf.Flush()
+	checkHistories(c)
 	for _, e := range eras {
 		if decodeRejected[e.Name]*5 > decoded[e.Name] {
 			c.Res.Violate("correspondence", "too-many-undecodable-"+e.Name, fmt.Sprintf("%s: %d of %d generated transactions are rejected by the decoder; the generator no longer fits the decoder", e.Name, decodeRejected[e.Name], decodeRejected[e.Name]+decoded[e.Name]), nil)
@@ -581,6 +714,10 @@ func run(c *vh.Ctx) error {
 }
 
 func main() {
+	if len(os.Args) > 1 && os.Args[1] == "verdicts" {
+		verdictsMain()
+		return
+	}
 	if len(os.Args) > 1 && os.Args[1] == "probe" {
 		probe()
 		return
